@@ -12,7 +12,9 @@
     [inc_end m g n] / [hh_end g n] = n lies on an included / on an H-H bond, [charge_changed a] = the two charges in typesGH differ.
     Theorems 13-17: the RadiusExpand helpers. *)
 From Coq Require Import List NArith ZArith Bool.
-From SK Require Import lib.LGraph lib.C01_GraphLemmas model.C01_Model model.C01_Opts model.C02_Model model.C02_Store proof.C02_Store proof.C02_Proof proof.C02_Opts proof.C02_OptsEquiv proof.C02_Ctx proof.C02_Lre proof.C02_LreTrace proof.C02_Sides proof.C02_Sides2 proof.C02_CtxEquiv proof.C02_CtxCentre proof.C02_CtxNest.
+From SK Require Import lib.LGraph lib.C01_GraphLemmas model.C01_Model model.C01_Opts model.C02_Model model.C02_Store model.C02_Api proof.C02_Store proof.C02_StoreCtx proof.C02_Api proof.C02_Proof proof.C02_Opts proof.C02_OptsEquiv proof.C02_Ctx proof.C02_Lre proof.C02_LreTrace proof.C02_Sides proof.C02_Sides2 proof.C02_CtxEquiv proof.C02_CtxCentre proof.C02_CtxNest.
+(* [extract_k_S] in section 28 is the definition of model/C02_Store.v (proof/C02_Proof.v has a lemma of that name) *)
+From SK Require Import model.C02_Store.
 Import ListNotations.
 Local Open Scope Z_scope.
 
@@ -336,13 +338,18 @@ Print Assumptions C02_ctx_of_ctx.
 
 (** 27. ITS graphs whose top-level labels are (reactant, product) PAIRS (ITSConstruction.construct with its default store=True;
         model/C02_Store.v: [snode] = labels that are scalars [Sc v] or pairs [Pr a b], [get_rc_S] = the instance of the generic
-        [get_rc_g]).  [flat] keeps the reactant side of every pair except that a pair element becomes "*": the only test that
-        looks at the element is  element == "H",  false for every pair.
+        [get_rc_g]).  A hydrogen is the element "H" or the pair ("H", "H") (_is_hydrogen; repaired in round 5: before, no pair was
+        a hydrogen and get_rc dropped the unchanged H-H bonds of every store=True ITS — finding in known_findings.d/C02.json).
+        [flat] keeps the reactant side of every pair, except that an element pair ("H", q), q other than "H", becomes "*".
         (a) get_rc_S runs in lock step with get_rc_x on the flattened graph: same atoms, same bonds, flattened labels — so theorems
             7-11, 18 describe its atoms and bonds;
         (b) every selected label of a centre atom IS the ITS atom's label, whatever its shape (a pair stays that pair);
-        (c) on an ITS all of whose elements are pairs the centre bonds (disconnected=False) are exactly the included bonds:
-            H-H bonds are NOT forced there (witness (d)); the store=False twin keeps them. *)
+        (c) the bonds of the centre for every option setting and every label shape (the H-H clause included), and its reading on a
+            store=True ITS: included bonds and bonds between two atoms whose element pair is ("H", "H");
+        (d) witnesses: the unchanged H-H bond of a store=True ITS is in the centre, a ("H","C") atom is no hydrogen;
+        (e) the flattened centre of a store=True ITS is the centre of its store=False twin, for every option setting, when every
+            atom has the same element on both sides; the twin of construct(store=True) is construct(store=False): the way the ITS
+            stores its labels does not change the centre. *)
 Theorem C02_rcS_flat : forall K d m (g : sits), gmapn flat (get_rc_S K d m g) = get_rc_x K d m (gmapn flat g).
 Proof. exact rcS_flat. Qed.
 Print Assumptions C02_rcS_flat.
@@ -355,15 +362,131 @@ Theorem C02_rcS_labels : forall K d m (g : sits), NoDup (node_ids g) -> forall n
 Proof. exact rcS_labels. Qed.
 Print Assumptions C02_rcS_labels.
 
-Theorem C02_rcS_store_true_bonds : forall K m (g : sits), wf g ->
-  (forall n a, label g n = Some a -> exists p q, n_el a = Some (Pr p q)) ->
-  forall u v y, adj (get_rc_S K false m g) u v = Some y <->
-                exists x, adj g u v = Some x /\ include_x m x = true /\ y = out_edge x.
+Theorem C02_rcS_edges : forall K d m (g : sits), wf g -> forall u v y,
+  adj (get_rc_S K d m g) u v = Some y <->
+  exists x, adj g u v = Some x /\
+    (((include_x m x = true \/ is_hh_g ish_S g u v = true) /\ y = out_edge x) \/
+     (include_x m x = false /\ is_hh_g ish_S g u v = false /\ d = true /\
+      In u (node_ids (get_rc_S K d m g)) /\ In v (node_ids (get_rc_S K d m g)) /\ y = out_edge_rec x)).
+Proof. exact rcS_edges. Qed.
+Print Assumptions C02_rcS_edges.
+
+Theorem C02_rcS_store_true_bonds : forall K m (g : itsS), wf g -> forall u v y,
+  adj (get_rc_S K false m (emb_S g)) u v = Some y <->
+  exists x, adj g u v = Some x /\
+    (include_x m (x, None) = true \/
+     (exists a b, label g u = Some a /\ label g v = Some b /\ s_el a = (EL_H, EL_H) /\ s_el b = (EL_H, EL_H))) /\
+    y = (x, Some false).
 Proof. exact rcS_store_true_bonds. Qed.
 Print Assumptions C02_rcS_store_true_bonds.
 
-Theorem C02_rcS_hh_not_forced :
-  gnodes (get_rc_S K_default false false (emb_S hhS)) = [] /\
-  length (gnodes (get_rc (gmap twin (fun e : iedge => e) hhS))) = 2%nat.
-Proof. exact rcS_hh_not_forced. Qed.
-Print Assumptions C02_rcS_hh_not_forced.
+Theorem C02_rcS_hh_forced :
+  node_ids (get_rc_S K_default false false (emb_S hhS)) = [1%N; 2%N] /\
+  adj (get_rc_S K_default false false (emb_S hhS)) 1%N 2%N = Some (IE 2 2 0, Some false) /\
+  node_ids (get_rc (gmap twin (fun e : iedge => e) hhS)) = [1%N; 2%N] /\
+  gnodes (get_rc_S K_default false false (emb_S hcS)) = [].
+Proof. exact rcS_hh_forced. Qed.
+Print Assumptions C02_rcS_hh_forced.
+
+Theorem C02_rcS_twin : forall K d m (g : itsS),
+  (forall n a, In (n, a) (gnodes g) -> fst (s_el a) = snd (s_el a)) ->
+  gmapn flat (get_rc_S K d m (emb_S g)) = get_rc_x K d m (emb (gmap twin (fun e : iedge => e) g)).
+Proof. exact rcS_twin. Qed.
+Print Assumptions C02_rcS_twin.
+
+Theorem C02_rcS_construct : forall K d m o G H,
+  (forall n a, In (n, a) (gnodes (its_construct_S o G H)) -> fst (s_el a) = snd (s_el a)) ->
+  gmapn flat (get_rc_S K d m (emb_S (its_construct_S o G H))) = get_rc_x K d m (emb (its_construct_o o G H)).
+Proof. exact rcS_construct. Qed.
+Print Assumptions C02_rcS_construct.
+
+(** 28. find_nearest_neighbors + extract_subgraph for ANY list of start atoms, generic in the node and bond types ([ball_sub],
+        model/C02_Store.v): the induced subgraph on exactly the atoms within k bonds of the start atoms (start atoms must be atoms
+        of the graph: networkx raises otherwise); balls grow with the radius.  Instance: extract_k on ITS graphs with pair / absent
+        labels — theorems 5 and 6 for every label shape ([walk_g] / [dist_le_g] are [walk] / [dist_le] at type [its]). *)
+Theorem C02_ball_sub_spec : forall (A B : Type) (g : lgraph A B) (S : list N) (k : nat), wf g ->
+  (forall s, In s S -> In s (node_ids g)) ->
+  let Bk := dist_le_g g S k in
+  (forall n, In n (node_ids (ball_sub g S k)) <-> Bk n) /\
+  (forall n a, label (ball_sub g S k) n = Some a <-> label g n = Some a /\ Bk n) /\
+  (forall u v e, adj (ball_sub g S k) u v = Some e <-> adj g u v = Some e /\ Bk u /\ Bk v).
+Proof. exact (@ball_sub_spec). Qed.
+Print Assumptions C02_ball_sub_spec.
+
+Theorem C02_ball_sub_mono : forall (A B : Type) (g : lgraph A B) (S : list N) (k k' : nat), wf g -> (k <= k')%nat ->
+  (forall n, In n (node_ids (ball_sub g S k)) -> In n (node_ids (ball_sub g S k'))) /\
+  (forall u v e, adj (ball_sub g S k) u v = Some e -> adj (ball_sub g S k') u v = Some e).
+Proof. exact (@ball_sub_mono). Qed.
+Print Assumptions C02_ball_sub_mono.
+
+Theorem C02_dist_le_g_its : forall (g : its) S k n, dist_le_g g S k n <-> dist_le g S k n.
+Proof. exact dist_le_g_its. Qed.
+Print Assumptions C02_dist_le_g_its.
+
+Theorem C02_ctxS_spec : forall g : sits, wf g -> forall k, (1 <= k)%nat ->
+  let Bk := dist_le_g g (node_ids (get_rc_S K_default false false g)) k in
+  (forall n, In n (node_ids (extract_k_S g k)) <-> Bk n) /\
+  (forall n a, label (extract_k_S g k) n = Some a <-> label g n = Some a /\ Bk n) /\
+  (forall u v e, adj (extract_k_S g k) u v = Some e <-> adj g u v = Some e /\ Bk u /\ Bk v).
+Proof. exact ctxS_spec. Qed.
+Print Assumptions C02_ctxS_spec.
+
+Theorem C02_ctxS_chain : forall g : sits, wf g -> forall k k', (k <= k')%nat ->
+  extract_k_S g 0 = get_rc_S K_default false false g /\
+  (forall n, In n (node_ids (extract_k_S g k)) -> In n (node_ids (extract_k_S g k'))) /\
+  (forall u v, adj (extract_k_S g k) u v <> None -> adj (extract_k_S g k') u v <> None) /\
+  ((1 <= k)%nat -> forall u v e, adj (extract_k_S g k) u v = Some e -> adj (extract_k_S g k') u v = Some e) /\
+  (forall n, In n (node_ids (extract_k_S g k')) -> In n (node_ids g)) /\
+  (forall u v, adj (extract_k_S g k') u v <> None -> adj g u v <> None).
+Proof. exact ctxS_chain. Qed.
+Print Assumptions C02_ctxS_chain.
+
+(** 29. Calling conventions of RadiusExpand (model/C02_Api.v).
+        (a) context_extraction on a reaction dict (insertion-ordered; [None] = the call raises): when data[its_key] is a graph the
+            result carries extract_k of it under context_key, every other entry unchanged, the input's keys in the input's order with
+            context_key appended only when it is new; otherwise the call raises.  context_key = its_key overwrites the ITS entry.
+        (b) paralle_context_extraction (n_jobs = 1): all-or-error, element-wise, length and order preserved.
+        (c) find_nearest_neighbors called directly: n_knn <= 0 gives the start atoms back; n_knn >= 1 with start atoms of the graph
+            gives exactly the atoms within n_knn bonds (theorem 5's ball for ANY start list); a start atom outside the graph raises.
+        (d) extract_k with n_knn < -1: the induced subgraph of the ITS on the centre atoms (not the centre). *)
+Theorem C02_context_extraction_dict : forall (d : dict) (ik ck : N) (k : Z),
+  match assoc ik d with
+  | Some (DG g) =>
+      exists r, context_extraction_d d ik ck k = Some r /\
+        assoc ck r = Some (DG (extract_k_z g k)) /\
+        (forall k', k' <> ck -> assoc k' r = assoc k' d) /\
+        map fst r = (if existsb (N.eqb ck) (map fst d) then map fst d else map fst d ++ [ck]) /\
+        (NoDup (map fst d) -> NoDup (map fst r))
+  | _ => context_extraction_d d ik ck k = None
+  end.
+Proof. exact context_extraction_d_spec. Qed.
+Print Assumptions C02_context_extraction_dict.
+
+Theorem C02_context_extraction_same_key : forall (d : dict) (ik : N) (k : Z) g, assoc ik d = Some (DG g) ->
+  exists r, context_extraction_d d ik ik k = Some r /\ assoc ik r = Some (DG (extract_k_z g k)) /\ map fst r = map fst d.
+Proof. exact context_extraction_d_same_key. Qed.
+Print Assumptions C02_context_extraction_same_key.
+
+Theorem C02_parallel_dict : forall (ds : list dict) (ik ck : N) (k : Z),
+  (forall rs, parallel_d ds ik ck k = Some rs ->
+     length rs = length ds /\
+     forall i, nth_error rs i = match nth_error ds i with Some d => context_extraction_d d ik ck k | None => None end) /\
+  (parallel_d ds ik ck k = None <-> exists d, In d ds /\ context_extraction_d d ik ck k = None).
+Proof. exact parallel_d_spec. Qed.
+Print Assumptions C02_parallel_dict.
+
+Theorem C02_find_nearest_neighbors_direct : forall (g : its) (seeds : list N) (k : Z),
+  (k <= 0 -> exists l, fnn g seeds k = Some l /\ forall n, In n l <-> In n seeds) /\
+  (0 < k -> (forall s, In s seeds -> In s (node_ids g)) ->
+     exists l, fnn g seeds k = Some l /\ forall n, In n l <-> dist_le g seeds (Z.to_nat k) n) /\
+  (0 < k -> (exists s, In s seeds /\ ~ In s (node_ids g)) -> fnn g seeds k = None).
+Proof. exact fnn_spec. Qed.
+Print Assumptions C02_find_nearest_neighbors_direct.
+
+Theorem C02_extract_k_negative : forall (g : its) k, wf g -> k < -1 ->
+  (forall n, In n (node_ids (extract_k_z g k)) <-> In n (node_ids (get_rc g))) /\
+  (forall n a, label (extract_k_z g k) n = Some a <-> label g n = Some a /\ In n (node_ids (get_rc g))) /\
+  (forall u v e, adj (extract_k_z g k) u v = Some e <->
+                 adj g u v = Some e /\ In u (node_ids (get_rc g)) /\ In v (node_ids (get_rc g))).
+Proof. exact extract_k_z_negative. Qed.
+Print Assumptions C02_extract_k_negative.
